@@ -19,7 +19,6 @@ skipped or cost the connection, and no delivered message depends on bytes beyond
 from a connection after it was closed.
 """
 import fnmatch, io, struct, sys, traceback
-from collections import deque
 
 from mc import env
 from mc.engine import pmap, split
@@ -567,9 +566,11 @@ def judge (case, insts, w, differential=True):
   lname = "OpenFlow_01_Task.run" if side == "ctl" else "RecocoIOLoop.run"
   # (1) termination
   if w.tripped or w.livelock:
-    subj = [tname(tail[1]), "hdr.length<8"] if why == "unframeable" else [mc, fc]
+    # a header with length < 8 is the same hole in the read loop whichever unpacker lets it through
+    subj = ["hdr.length<8"] if why == "unframeable" else [mc, fc]
+    culprit = " (looping on a %s header with length %d)" % (tname(tail[1]), struct.unpack_from("!H", tail, 2)[0]) if why == "unframeable" else ""
     if w.tripped:
-      v("1", "nonterminating", subj, "a step into %s exceeded %d lines" % (lname, BUDGET))
+      v("1", "nonterminating", subj, "a step into %s exceeded %d lines%s" % (lname, BUDGET, culprit))
     else:
       v("1", "livelock", subj, "%s needed more than %d select rounds to consume one scripted step" % (lname, MAXIT))
     return bad, ("tripped" if w.tripped else "livelock",)
@@ -651,14 +652,14 @@ def judge (case, insts, w, differential=True):
       v("4", "closed-without-cause", [mc, fc], "the hostile connection was closed while only valid messages had been received")
   else:
     if why == "unframeable":
-      v("4", "unframeable-accepted", [tname(tail[1])], "a %s header with length %d < 8 was received and the connection stayed open%s"
+      v("4", "unframeable-accepted", [], "a %s header with length %d < 8 was received and the connection stayed open%s"
         % (tname(tail[1]), struct.unpack_from("!H", tail, 2)[0], " (and %d message(s) were delivered from the bytes behind it)" % len(beyond) if beyond else ""))
     if w.eof_pushed[h]:
       v("4", "eof-not-closed", [mc, fc], "the peer closed the connection and it is still open")
   if beyond and why != "unframeable":
     v("4", "delivered-from-incomplete-unit", [beyond[0]], "a %s was delivered although fewer bytes than its declared length had arrived" % beyond[0])
   if beyond and why == "unframeable" and closed:
-    v("4", "unframeable-accepted", [tname(tail[1])], "%d message(s) were delivered from bytes behind a %s header with length %d < 8"
+    v("4", "unframeable-accepted", [], "%d message(s) were delivered from bytes behind a %s header with length %d < 8"
       % (len(beyond), tname(tail[1]), struct.unpack_from("!H", tail, 2)[0]))
   # non-interference: a delivered object that is not a slice of its unit must not depend on later bytes
   if differential:
@@ -700,7 +701,7 @@ def cases_for (side, ii, inst, group, quick):
   P4 = ("first", "before", "between", "after")
   out = []
   def add (field, val, pos, glue, eof=False):
-    out.append(dict(side=side, inst=ii, field=field, val=val, pos=pos, glue=glue, eof=eof))
+    out.append(dict(side=side, inst=ii, name=inst.name, field=field, val=val, pos=pos, glue=glue, eof=eof))
   if group == "len":
     if inst.big and quick:
       vals = [x for x in list(range(0, 25)) + list(range(n - 16, n + 9)) if x != n]
@@ -790,7 +791,9 @@ def run (cfg):
               "separate recvs, with two sibling connections exchanging valid messages in the same select rounds%s. distinct = "
               "(side, message class, field class, position, chunking, deliveries/errors/closed/logged exceptions, verdict)"
               % (len(insts), VERSIONS, EMB_VALUES,
-                 " (quick tier: type sweep 0..255 only at 'between'/one recv and the values %s.. elsewhere; 'before' position only glued; 1068-byte desc stats reply only near both ends)" % (TYPE_EDGE[:3],) if quick else ""))
+                 " (quick tier reductions: the full type sweep 0..255 only at 'between' in one recv, type values 0..23,0x7f,0x80,0xfe,0xff at every "
+                 "position in one recv; position 'before' only in one recv; truncation+EOF as the first bytes only for cut points <= 12; "
+                 "the 1068-byte desc stats reply only with lengths / cut points within 24 bytes of its start or 16 of its end)" if quick else ""))
   rep.bound = dict(connections=3, hostile=1, corruptions_per_stream=1, line_budget_per_step=BUDGET, select_rounds_per_step=MAXIT)
   rep.assumptions = ["select is answered honestly: readable = scripted socket with pending bytes/EOF, sockets always writable",
                      "one corrupted field per hostile stream; segmentation is per piece or one chunk (C02 covers segmentation)",
@@ -802,6 +805,8 @@ def run (cfg):
 def replay (cfg, data):
   insts = R.catalogue()
   case = dict(data)
+  if case.get("name"):                       # the instance is identified by name; the index is a cache
+    case["inst"] = [i.name for i in insts].index(case["name"])
   w, bad, summ = _execute_and_judge(case, insts)
   inst = insts[case["inst"]]
   lines = ["case: %r (%s)" % (case, inst.name)]
@@ -811,7 +816,7 @@ def replay (cfg, data):
   lines.append("errors sent on hostile: %r" % [(hex(x), tc) for x, d, tc in w.errs[HOSTILE]])
   lines.append("closed: %r  loop: %s  tripped: %s  selecting: %r" % (w.closed, w.dead or "alive", w.tripped, w.final_sel))
   lines.append("sibling deliveries: %r of %r" % ([len(w.deliv[0]), len(w.deliv[2])], [len(w.pushed[0]), len(w.pushed[2])]))
-  lines.append("exceptions logged by pox: %r" % (sorted(set(w.logged())),))
+  lines.append("exceptions logged by pox: %r" % (sorted(set(w.logged()), key=repr),))
   for key, text in bad:
     lines.append("VIOLATED %s: %s" % (key, text))
   return bool(bad), "\n".join(lines)
